@@ -948,12 +948,12 @@ class EventBus:
         if not self._is_running:
             return False
 
-        try:
-            # Create a task for the wait so we can cancel it cleanly
-            wait_for_queued_event = asyncio.create_task(self.event_queue.wait_until_not_empty())
-            if hasattr(wait_for_queued_event, '_log_destroy_pending'):
-                wait_for_queued_event._log_destroy_pending = False  # type: ignore  # Suppress warnings on this task in case of cleanup
+        # Create a task for the wait so we can cancel it cleanly
+        wait_for_queued_event = asyncio.create_task(self.event_queue.wait_until_not_empty())
+        if hasattr(wait_for_queued_event, '_log_destroy_pending'):
+            wait_for_queued_event._log_destroy_pending = False  # type: ignore  # Suppress warnings on this task in case of cleanup
 
+        try:
             # Wait for next event with timeout
             has_next_event, _pending = await asyncio.wait({wait_for_queued_event}, timeout=wait_for_timeout)
             if has_next_event:
@@ -973,7 +973,14 @@ class EventBus:
                     self._on_idle.set()
                 return False
 
-        except (asyncio.CancelledError, RuntimeError, QueueShutDown):
+        except asyncio.CancelledError:
+            wait_for_queued_event.cancel()
+            if self._is_running:
+                # Nobody called stop(): the run loop task itself is being cancelled (e.g. asyncio.run() cancelling
+                # all remaining tasks at exit). Swallowing that would keep the loop polling forever and hang the exit
+                raise
+            return False
+        except (RuntimeError, QueueShutDown):
             # Clean cancellation during shutdown or queue was shut down
             return False
 
